@@ -123,6 +123,9 @@ func main() {
 
 func writeLoadFailure(verif, id string, err error) string {
 	dir := verif + "/evidence/replay"
+	if o := os.Getenv("PVCHECK_OUT"); o != "" {
+		dir = o + "/replay"
+	}
 	os.MkdirAll(dir, 0o755)
 	p := fmt.Sprintf("%s/%s.load.json", dir, id)
 	os.WriteFile(p, []byte(fmt.Sprintf("{\"property\":%q,\"rule\":\"load\",\"detail\":%q}\n", id, err.Error())), 0o644)
